@@ -111,5 +111,9 @@ Mods(tn, env, v) ==
          IN (IF Len(v) < MaxLen /\ Len(v) < Len(kd)
              THEN {Append(v, <<kd[Len(v) + 1], Default(et.fields[2].t, venv)>>)} ELSE {})
             \cup (IF Len(v) > 0 THEN {SubSeq(v, 1, Len(v) - 1)} ELSE {})
+            \* the key of the last element becomes a string that is not valid UTF-8 (it sorts after every
+            \* key of KeyDom, so the order is kept): C05 quantifies over such dictionary keys
+            \cup (IF Len(v) > 0 /\ DictKeyType(t) = "string" /\ v[Len(v)][1] # <<255>>
+                  THEN {[v EXCEPT ![Len(v)] = <<<<255>>, v[Len(v)][2]>>]} ELSE {})
             \cup UNION { {[v EXCEPT ![j] = <<v[j][1], w>>] : w \in Mods(et.fields[2].t, venv, v[j][2])} : j \in 1..Len(v) }
 =============================================================================
